@@ -540,7 +540,21 @@ func c15World(t *testing.T, r *simcore.Run) any {
 					vals = append(vals, filters[i].outs[n-1]) // the client's (filtered) value of this round
 				}
 			}
-			if len(vals) == len(pathOf) && len(vals) > 0 && !lossy {
+			// one value per client that completed a measurement. When the round came back before
+			// its deadline every client has reported, so the values of those that completed are
+			// exactly what was collected, however many others failed (and in whatever order);
+			// a round that ran into its deadline is judged only when all of them completed
+			noFilterTookPart := false
+			for i := range clients {
+				if _, took := pathOf[i]; took && noFilter[i] {
+					noFilterTookPart = true
+				}
+			}
+			early := time.Since(roundStart) < 400*time.Millisecond
+			if len(vals) > 0 && !noFilterTookPart && ((len(vals) == len(pathOf) && !lossy) || early) {
+				if len(vals) < len(pathOf) {
+					r.Probe("ftm-checked-with-failed-clients")
+				}
 				lo, hi := c01FTM(vals)
 				wantOff := lo + (hi-lo)/2
 				if absDur(off-wantOff) > 1 {
